@@ -90,22 +90,6 @@ spec fn gen_from_ev(g0: Gen, g1: Gen, ev: Ev, n0: int) -> bool {
         g1[k].is_some() && ev_has(ev, n0, g1[k].unwrap())
 }
 
-// what reconstruct_path promises about the path it returns
-spec fn real_path<M: Model>(m: M, p: Path<M::State, M::Action>) -> bool {
-    &&& is_chain(m, path_states(p))
-    &&& forall|i: int| 0 <= i < p.0@.len() - 1 ==> (#[trigger] p.0@[i]).1.is_some()
-            && m.acts(p.0@[i].0).contains(p.0@[i].1.unwrap())
-            && m.nxt(p.0@[i].0, p.0@[i].1.unwrap()) == Some(p.0@[i + 1].0)
-    &&& p.0@.last().1.is_none()
-}
-spec fn same_fps<S>(a: Seq<S>, b: Seq<S>) -> bool {
-    a.len() == b.len() && forall|i: int| 0 <= i < a.len() ==> fp_of(#[trigger] a[i]) == fp_of(b[i])
-}
-// the visitor has been shown exactly the evaluated jobs, in order, each with a real path whose
-// fingerprints are those of the generating path
-spec fn shows<M: Model>(m: M, p: Path<M::State, M::Action>, ss: Seq<M::State>) -> bool {
-    real_path(m, p) && same_fps(path_states(p), ss)
-}
 #[verifier::opaque]
 spec fn vis_inv<M: Model>(m: M, log: Seq<Path<M::State, M::Action>>, ev: Ev, pth: PthMap<M::State>) -> bool {
     log.len() == ev.len() && forall|n: int| 0 <= n < log.len() ==> shows(m, #[trigger] log[n], pth[ev[n].0])
@@ -122,14 +106,10 @@ spec fn witness_ok<M: Model>(m: M, st: StMap<M::State>, pth: PthMap<M::State>, i
             && forall|n: int| 0 <= n < pth[k].len() ==> !cond(p, m, #[trigger] pth[k][n]),
     }
 }
-spec fn named<M: Model>(m: M, i: int, name: &'static str) -> bool { 0 <= i < m.props().len() && m.props()[i].name == name }
 #[verifier::opaque]
 spec fn disc_ok<M: Model>(m: M, g: Gen, d: Disc, st: StMap<M::State>, pth: PthMap<M::State>) -> bool {
     forall|name: &'static str| #[trigger] d.contains_key(name) ==>
         g.contains_key(d[name]) && exists|i: int| #[trigger] named(m, i, name) && witness_ok(m, st, pth, i, d[name])
-}
-spec fn has_eventually<M: Model>(m: M, name: &'static str) -> bool {
-    exists|i: int| #[trigger] named(m, i, name) && m.props()[i].expectation is Eventually
 }
 // entries are never removed; an entry is only replaced for a name that an eventually-property carries
 // (so the first witness of an always / sometimes property is kept); every entry written since d0
@@ -142,24 +122,11 @@ spec fn disc_frame<M: Model>(m: M, d0: Disc, d1: Disc, ev: Ev, n0: int) -> bool 
             ev_has(ev, n0, d1[name])
 }
 
-// D2: property i does not call for a discovery at state s
-spec fn passes<M: Model>(m: M, i: int, s: M::State) -> bool {
-    let p = m.props()[i];
-    match p.expectation { Expectation::Always => cond(p, m, s), Expectation::Sometimes => !cond(p, m, s), Expectation::Eventually => true }
-}
 // D2: a property without a discovery has been tested on every evaluated state and none called for one
 #[verifier::opaque]
 spec fn tested_ok<M: Model>(m: M, d: Disc, st: StMap<M::State>, evaluated: Set<Fingerprint>) -> bool {
     forall|k: Fingerprint, i: int| evaluated.contains(k) && 0 <= i < m.props().len() && !d.contains_key(m.props()[i].name)
         ==> #[trigger] passes(m, i, st[k])
-}
-// ... for the state under evaluation and the properties before `done`
-#[verifier::opaque]
-spec fn local_tested<M: Model>(m: M, d: Disc, s: M::State, done: int) -> bool {
-    forall|i: int| 0 <= i < done && i < m.props().len() && !d.contains_key(m.props()[i].name) ==> #[trigger] passes(m, i, s)
-}
-spec fn all_discovered<M: Model>(m: M, d: Disc) -> bool {
-    forall|i: int| 0 <= i < m.props().len() ==> d.contains_key((#[trigger] m.props()[i]).name)
 }
 
 // ---- P4 (C13): queue order ----
@@ -186,53 +153,12 @@ spec fn ev_below(ev: Ev, dd: int) -> bool {
 }
 
 // ---- P5 (C03 E1/E2, C11): eventually bits ----
-// the eventually-property i is still unsatisfied along ss
-spec fn unsat_on<M: Model>(m: M, i: int, ss: Seq<M::State>) -> bool {
-    &&& 0 <= i < m.props().len()
-    &&& m.props()[i].expectation is Eventually
-    &&& forall|n: int| 0 <= n < ss.len() ==> !cond(m.props()[i], m, #[trigger] ss[n])
-}
-// bit i is set exactly if property i is an eventually-property that no state of ss satisfies
-spec fn ebit_exact<M: Model>(m: M, bits: Set<usize>, ss: Seq<M::State>, i: int) -> bool {
-    bits.contains(i as usize) <==> unsat_on(m, i, ss)
-}
 // E1 for the pending jobs: the bits of a job speak about the path up to (excluding) the job's own state,
 // which has not been evaluated yet
 #[verifier::opaque]
 spec fn pend_ebits_ok<M: Model>(m: M, pth: PthMap<M::State>, p: Seq<Job<M::State>>) -> bool {
     forall|j: int, i: int| 0 <= j < p.len() && 0 <= i < m.props().len() ==>
         #[trigger] ebit_exact(m, p[j].2@, pth[p[j].1].drop_last(), i)
-}
-// E1 for the job under evaluation while the property loop runs: properties before `done` have seen the
-// job's own state (the last of `full`), the others have not
-spec fn local_path<S>(full: Seq<S>, i: int, done: int) -> Seq<S> { if i < done { full } else { full.drop_last() } }
-#[verifier::opaque]
-spec fn local_ebits_undisc<M: Model>(m: M, d: Disc, bits: Set<usize>, full: Seq<M::State>, done: int) -> bool {
-    forall|i: int| 0 <= i < m.props().len() && !d.contains_key(m.props()[i].name) ==>
-        #[trigger] ebit_exact(m, bits, local_path(full, i, done), i)
-}
-#[verifier::opaque]
-spec fn local_ebits_disc<M: Model>(m: M, d: Disc, bits: Set<usize>, full: Seq<M::State>, done: int) -> bool {
-    forall|i: int| 0 <= i < m.props().len() && d.contains_key(m.props()[i].name) ==>
-        #[trigger] ebit_exact(m, bits, local_path(full, i, done), i)
-}
-#[verifier::opaque]
-spec fn local_exact<M: Model>(m: M, bits: Set<usize>, full: Seq<M::State>) -> bool {
-    forall|i: int| 0 <= i < m.props().len() ==> #[trigger] ebit_exact(m, bits, full, i)
-}
-// the n-th action of s leads to an in-boundary successor
-spec fn in_succ_at<M: Model>(m: M, s: M::State, n: int) -> bool {
-    match m.nxt(s, m.acts(s)[n]) { Some(t) => m.within(t), None => false }
-}
-// what one iteration of the property loop (property i, job state `last`) has to do with (discoveries, ebits):
-// only the name of property i may be added, only bit i may change ...
-spec fn prop_step_frame<M: Model>(m: M, d2: Disc, d1: Disc, bits2: Set<usize>, bits1: Set<usize>, i: int) -> bool {
-    &&& d2.dom().subset_of(d1.dom()) && d1.dom().subset_of(d2.dom().insert(m.props()[i].name))
-    &&& forall|x: usize| x != i as usize ==> bits1.contains(x) == bits2.contains(x)
-}
-// ... and bit i has to be cleared iff property i is an eventually-property that `last` satisfies
-spec fn bit_updated<M: Model>(m: M, bits2: Set<usize>, bits1: Set<usize>, last: M::State, i: int) -> bool {
-    bits1.contains(i as usize) <==> (bits2.contains(i as usize) && !(m.props()[i].expectation is Eventually && cond(m.props()[i], m, last)))
 }
 
 // ---- P6 (C01 G3 / G4, state_count) ----
@@ -264,38 +190,11 @@ spec fn explog_ok<S>(el: Seq<S>, expanded: Set<Fingerprint>) -> bool {
     &&& forall|a: int, b: int| 0 <= a < b < el.len() ==> fp_of(#[trigger] el[a]) != fp_of(#[trigger] el[b])
     &&& forall|k: Fingerprint| #[trigger] expanded.contains(k) ==> exists|n: int| 0 <= n < el.len() && fp_of(#[trigger] el[n]) == k
 }
-// number of the first n actions of s that lead to an in-boundary successor
-spec fn succ_count<M: Model>(m: M, s: M::State, n: int) -> nat
-    decreases n
-{
-    if n <= 0 { 0 } else { succ_count(m, s, n - 1) + (if in_succ_at(m, s, n - 1) { 1nat } else { 0nat }) }
-}
-// ... summed over the expansion log
-spec fn total_succ<M: Model>(m: M, el: Seq<M::State>) -> nat
-    decreases el.len()
-{
-    if el.len() == 0 { 0 } else { total_succ(m, el.drop_last()) + succ_count(m, el.last(), m.acts(el.last()).len() as int) }
-}
-// state_count has grown by cnt - cnt0 (unless that wraps around)
-spec fn count_ok(sc0: usize, cnt0: nat, sc: usize, cnt: nat) -> bool {
-    cnt >= cnt0 && (sc0 + (cnt - cnt0) <= usize::MAX ==> sc == sc0 + (cnt - cnt0))
-}
 
 // =====================================================================================================
 // Step lemmas: one per kind of state change of check_block
 // =====================================================================================================
 
-//@props C03
-proof fn path_is_chain<M: Model>(m: M, ss: Seq<M::State>)
-    requires is_path(m, ss)
-    ensures is_chain(m, ss)
-{
-    assert forall|i: int| 0 <= i < ss.len() - 1 implies is_step(m, #[trigger] ss[i], ss[i + 1]) by {
-        assert(is_succ(m, ss[i], ss[i + 1]));
-        let a = choose|a: M::Action| #[trigger] m.acts(ss[i]).contains(a) && m.nxt(ss[i], a) == Some(ss[i + 1]) && m.within(ss[i + 1]);
-        assert(m.acts(ss[i]).contains(a) && m.nxt(ss[i], a) == Some(ss[i + 1]));
-    }
-}
 
 // one step of the walk along the parent pointers: q is the path of the current key k (a prefix of
 // `full`), f the fingerprints collected so far (those of the rest of `full`)
@@ -598,21 +497,6 @@ proof fn order_step<S>(ev: Ev, q: Seq<Job<S>>, p: Seq<Job<S>>, dd: int)
     ensures eval_order_ok(ev, p)
 { reveal(eval_order_ok); reveal(ev_below); reveal(span_ok); }
 
-//@props C03 C11
-proof fn unsat_on_push<M: Model>(m: M, i: int, ss: Seq<M::State>, s: M::State)
-    ensures unsat_on(m, i, ss.push(s)) <==> unsat_on(m, i, ss) && !cond(m.props()[i], m, s)
-{
-    let s2 = ss.push(s);
-    if unsat_on(m, i, s2) {
-        assert(s2[ss.len() as int] == s);
-        assert forall|n: int| 0 <= n < ss.len() implies !cond(m.props()[i], m, #[trigger] ss[n]) by { assert(s2[n] == ss[n]); }
-    }
-    if unsat_on(m, i, ss) && !cond(m.props()[i], m, s) {
-        assert forall|n: int| 0 <= n < s2.len() implies !cond(m.props()[i], m, #[trigger] s2[n]) by {
-            if n < ss.len() { assert(s2[n] == ss[n]); }
-        }
-    }
-}
 
 // `pending.pop_back()` returned a job: its bits describe the path before its own state
 //@props C03 C11
@@ -635,59 +519,7 @@ proof fn pop_ebits_step<M: Model>(m: M, pth: PthMap<M::State>, p: Seq<Job<M::Sta
     }
 }
 
-// one iteration of the property loop.  The bit of an eventually-property has to be cleared when the state
-// satisfies it, whether or not the property already has a discovery.  (/repo `continue`s for a property that
-// has a discovery before looking at the condition: the second clause is then not preserved, finding F-C03-1.)
-//@props C03 C11
-proof fn ebits_step<M: Model>(m: M, d2: Disc, d1: Disc, bits2: Set<usize>, bits1: Set<usize>, full: Seq<M::State>, i: int)
-    requires
-        0 <= i < m.props().len(), m.props().len() <= usize::MAX, full.len() > 0,
-        local_ebits_undisc(m, d2, bits2, full, i), local_ebits_disc(m, d2, bits2, full, i),
-    ensures
-        prop_step_frame(m, d2, d1, bits2, bits1, i) && (!d1.contains_key(m.props()[i].name) ==> bit_updated(m, bits2, bits1, full.last(), i))
-            ==> local_ebits_undisc(m, d1, bits1, full, i + 1),
-        prop_step_frame(m, d2, d1, bits2, bits1, i) && (d1.contains_key(m.props()[i].name) ==> bit_updated(m, bits2, bits1, full.last(), i))
-            ==> local_ebits_disc(m, d1, bits1, full, i + 1),
-{
-    reveal(local_ebits_undisc); reveal(local_ebits_disc);
-    let p = m.props()[i];
-    assert(full == full.drop_last().push(full.last()));
-    unsat_on_push(m, i, full.drop_last(), full.last());
-    if prop_step_frame(m, d2, d1, bits2, bits1, i) {
-        assert forall|x: int| 0 <= x < m.props().len() implies
-            (if x == i { bit_updated(m, bits2, bits1, full.last(), i) ==> ebit_exact(m, bits1, full, i) }
-             else { #[trigger] ebit_exact(m, bits1, local_path(full, x, i + 1), x) }) by {
-            assert(ebit_exact(m, bits2, local_path(full, x, i), x)) by {
-                if d2.contains_key(m.props()[x].name) {} else {}
-            }
-            if x != i {
-                assert(local_path(full, x, i + 1) == local_path(full, x, i));
-                assert((x as usize) != (i as usize));
-            } else {
-                assert(local_path(full, x, i) == full.drop_last());
-            }
-        }
-        assert(local_path(full, i, i + 1) == full);
-        assert forall|x: int| 0 <= x < m.props().len() && x != i implies
-            d1.contains_key(m.props()[x].name) == d2.contains_key(m.props()[x].name) || m.props()[x].name == p.name by {
-            assert(d2.dom().contains(m.props()[x].name) ==> d1.dom().contains(m.props()[x].name));
-            assert(d1.dom().contains(m.props()[x].name) ==> d2.dom().insert(p.name).contains(m.props()[x].name));
-        }
-    }
-}
 
-// after the property loop: both clauses together say the bits are exact for the whole path
-//@props C03 C11
-proof fn ebits_done<M: Model>(m: M, d: Disc, bits: Set<usize>, full: Seq<M::State>, done: int)
-    requires local_ebits_undisc(m, d, bits, full, done), local_ebits_disc(m, d, bits, full, done), done >= m.props().len()
-    ensures local_exact(m, bits, full)
-{
-    reveal(local_ebits_undisc); reveal(local_ebits_disc); reveal(local_exact);
-    assert forall|i: int| 0 <= i < m.props().len() implies #[trigger] ebit_exact(m, bits, full, i) by {
-        assert(local_path(full, i, done) == full);
-        if d.contains_key(m.props()[i].name) {} else {}
-    }
-}
 
 // a new child job gets a clone of the bits of its parent k (exact for pth[k])
 //@props C03 C11
@@ -717,20 +549,6 @@ proof fn child_ebits_step<M: Model>(m: M, g: Gen, st: StMap<M::State>, pth: PthM
     }
 }
 
-// no action of s leads into the boundary: s is a dead end
-//@props C03 C11
-proof fn term_done<M: Model>(m: M, s: M::State)
-    requires forall|n: int| 0 <= n < m.acts(s).len() ==> !#[trigger] in_succ_at(m, s, n)
-    ensures is_dead_end(m, s)
-{
-    assert forall|t: M::State| !is_succ(m, s, t) by {
-        if is_succ(m, s, t) {
-            let a = choose|a: M::Action| #[trigger] m.acts(s).contains(a) && m.nxt(s, a) == Some(t) && m.within(t);
-            let n = choose|n: int| 0 <= n < m.acts(s).len() && m.acts(s)[n] == a;
-            assert(in_succ_at(m, s, n));
-        }
-    }
-}
 
 // bit i still set at a dead end k: k witnesses the eventually-property i
 //@props C03 C11
@@ -871,16 +689,6 @@ proof fn part_done_sub<S>(dom: Set<Fingerprint>, p: Seq<Job<S>>, done: Set<Finge
     ensures forall|x: Fingerprint| done.contains(x) ==> dom.contains(x)
 { reveal(partition_ok); }
 
-//@props C02
-proof fn tested_step<M: Model>(m: M, d2: Disc, d1: Disc, s: M::State, i: int)
-    requires local_tested(m, d2, s, i), d2.dom().subset_of(d1.dom()), 0 <= i
-    ensures (!d1.contains_key(m.props()[i].name) ==> passes(m, i, s)) ==> local_tested(m, d1, s, i + 1)
-{
-    reveal(local_tested);
-    assert forall|x: int| 0 <= x < i && x < m.props().len() && !d1.contains_key(m.props()[x].name) implies #[trigger] passes(m, x, s) by {
-        assert(d2.dom().contains(m.props()[x].name) ==> d1.dom().contains(m.props()[x].name));
-    }
-}
 // the job k (state s) has been tested against every property without a discovery; discoveries and
 // `generated` may have grown since the facts were established
 //@props C02
@@ -909,38 +717,11 @@ proof fn extends_refl<S>(g: Gen, st: StMap<S>, pth: PthMap<S>)
 // Property lemmas: what the invariants of check_block mean once the queue has run empty
 // =====================================================================================================
 
-// A-FP, as an explicit hypothesis: no two reachable states share a fingerprint
-spec fn fp_inj_reach<M: Model>(m: M) -> bool {
-    forall|a: M::State, b: M::State| reach(m, a) && reach(m, b) && #[trigger] fp_of(a) == #[trigger] fp_of(b) ==> a == b
-}
 // established by `spawn` (not in this unit): every in-boundary initial state has been generated
 spec fn inits_generated<M: Model>(m: M, g: Gen) -> bool {
     forall|s: M::State| #[trigger] is_init(m, s) ==> g.contains_key(fp_of(s))
 }
-// `Property` names are pairwise distinct (the checker keys its discoveries by name)
-spec fn names_distinct<M: Model>(m: M) -> bool {
-    forall|i: int, j: int| 0 <= i < m.props().len() && 0 <= j < m.props().len()
-        && (#[trigger] m.props()[i]).name == (#[trigger] m.props()[j]).name ==> i == j
-}
 
-//@props C01 C03
-proof fn path_reach<M: Model>(m: M, ss: Seq<M::State>)
-    requires is_path(m, ss)
-    ensures reach_n(m, ss.last(), (ss.len() - 1) as nat), reach(m, ss.last())
-{}
-//@props C01 C03
-proof fn path_prefix<M: Model>(m: M, ss: Seq<M::State>)
-    requires is_path(m, ss), ss.len() > 1
-    ensures is_path(m, ss.drop_last()), is_succ(m, ss.drop_last().last(), ss.last())
-{
-    let pre = ss.drop_last();
-    assert(pre[0] == ss[0]);
-    assert forall|i: int| 0 <= i < pre.len() - 1 implies is_succ(m, #[trigger] pre[i], pre[i + 1]) by {
-        assert(pre[i] == ss[i] && pre[i + 1] == ss[i + 1]);
-    }
-    assert(pre.last() == ss[ss.len() - 2]);
-    assert(is_succ(m, ss[ss.len() - 2], ss[ss.len() - 2 + 1]));
-}
 
 // C01 (soundness half): every generated key is the fingerprint of a reachable in-boundary state
 //@props C01
